@@ -27,6 +27,7 @@ ASSUMPTIONS = ["scripted filters answer the same for every call on the same reco
                "only and call ids are unique; user code holds no lock while it logs (no self-deadlock)",
                "mode-1 global order is fixed by the harness's rendezvous (handler event, then all of thread 2, "
                "then the rest of thread 1); other interleavings are covered by the theorem, not by the test"]
+RELEASE_TOO = True          # the cases also run through the release-profile harness (see ./check)
 EXHAUSTIVE = {"quick": False, "thorough": False}
 
 
@@ -265,4 +266,11 @@ def extra_checks(ctx, cases, impl_lines, model_lines):
                         {"scenario": "c03 default-handler with stderr=" + what}))
             break
     ctx.setdefault("xcheck", {})["default_handler_children"] = 2
-    return res
+    if res:
+        return res
+    # "each appender error is handed to the error handler exactly once" - to the handler of the configuration the
+    # record was routed by, also when another configuration is installed while the record is in flight: C15's swap
+    # scenarios with a failing appender and a recording handler
+    from gen import xcheck
+    return xcheck.borrow(ctx, "C15", "an appender error reaches the error handler once, whatever is reconfigured meanwhile",
+                         lambda c: c[0] == 0 and len(c) > 6, n=120, seed_salt=41)
